@@ -165,10 +165,16 @@ func Harness_C09_GoldenGate() {
 func Harness_C09_Termination() {
 	vSchedules(vTier(0, 1))
 	a, b, c := vBytes(2, "ACGT"), vBytes(2, "ACGT"), vBytes(2, "ACGT")
+	mk := func(interior, j0, j1 string) Fragment {
+		if vChoice(2) == 1 { // supplied in the opposite orientation
+			return Fragment{cRC(interior), cRC(j1), cRC(j0)}
+		}
+		return Fragment{interior, j0, j1}
+	}
 	frags := []Fragment{
-		{a, c09Junctions[3], c09Junctions[0]}, // the seed leads into the cycle but is not part of it
-		{b, c09Junctions[0], c09Junctions[1]},
-		{c, c09Junctions[1], c09Junctions[0]},
+		mk(a, c09Junctions[3], c09Junctions[0]), // leads into the cycle but is not part of it
+		mk(b, c09Junctions[0], c09Junctions[1]),
+		mk(c, c09Junctions[1], c09Junctions[0]),
 	}
 	if vChoice(2) == 1 {
 		frags[0], frags[2] = frags[2], frags[0]
